@@ -58,6 +58,7 @@ impl<const CAP: usize> VecModel<CAP> {
 
 fn vec_compare<V: Vector<Tracked>, const CAP: usize>(v: &V, m: &VecModel<CAP>) {
     assert!(v.len() == m.len, "c16: vector length differs from the model");
+    assert!(live() == m.len, "c16: number of live elements differs from the vector content (leak or double drop)");
     assert!(v.is_empty() == (m.len == 0));
     assert!(v.is_full() == (m.len == CAP));
     assert!(v.capacity() == CAP);
@@ -101,7 +102,6 @@ fn vec_history<V: Vector<Tracked>, const CAP: usize, const STEPS: usize, const O
                     m.insert(m.len, id, x);
                 } else {
                     assert!(r == Err(VectorModificationError::InsertWouldExceedCapacity));
-                    assert!(!is_live(id), "c16: refused element leaked");
                     refused = true;
                 }
             }
@@ -119,11 +119,9 @@ fn vec_history<V: Vector<Tracked>, const CAP: usize, const STEPS: usize, const O
                 let r = v.insert(idx, e);
                 if m.len == CAP {
                     assert!(r == Err(VectorModificationError::InsertWouldExceedCapacity));
-                    assert!(!is_live(id));
                     refused = true;
                 } else if idx > m.len {
                     assert!(r == Err(VectorModificationError::OutOfBounds));
-                    assert!(!is_live(id));
                 } else {
                     assert!(r.is_ok());
                     m.insert(idx, id, x);
@@ -141,20 +139,18 @@ fn vec_history<V: Vector<Tracked>, const CAP: usize, const STEPS: usize, const O
                 v.truncate(idx);
                 while m.len > idx {
                     let (id, _) = m.remove(m.len - 1);
-                    assert!(!is_live(id), "c16: truncated element not dropped");
                 }
             }
             5 if OPSET == 1 => {
                 v.clear();
                 while m.len > 0 {
                     let (id, _) = m.remove(m.len - 1);
-                    assert!(!is_live(id), "c16: cleared element not dropped");
                 }
             }
             6 if OPSET == 1 => {
                 // extend_from_slice clones: the new element gets a fresh id
                 let src = [Tracked::new(x)];
-                let first_new = unsafe { NEXT } as u8;
+                let first_new = next_id();
                 let n = if idx >= 1 { 1 } else { 0 };
                 let r = v.extend_from_slice(&src[..n]);
                 if m.len + n <= CAP {
@@ -164,23 +160,22 @@ fn vec_history<V: Vector<Tracked>, const CAP: usize, const STEPS: usize, const O
                     }
                 } else {
                     assert!(r == Err(VectorModificationError::InsertWouldExceedCapacity));
-                    assert!(unsafe { NEXT } as u8 == first_new, "c16: refused extend cloned elements");
+                    assert!(next_id() == first_new, "c16: refused extend cloned elements");
                     refused = true;
                 }
             }
             _ if OPSET == 0 => {}
             _ => {
                 // resize_with: grows with fresh elements or truncates
-                let first_new = unsafe { NEXT } as u8;
+                let first_new = next_id();
                 let r = v.resize_with(idx, || Tracked::new(x));
                 if idx > CAP {
                     assert!(r == Err(VectorModificationError::InsertWouldExceedCapacity));
-                    assert!(unsafe { NEXT } as u8 == first_new);
+                    assert!(next_id() == first_new);
                 } else {
                     assert!(r.is_ok());
                     while m.len > idx {
                         let (id, _) = m.remove(m.len - 1);
-                        assert!(!is_live(id));
                     }
                     let mut k = 0u8;
                     while m.len < idx {
@@ -257,10 +252,10 @@ fn poly_vec_run<const CAP: usize, const STEPS: usize, const OPSET: u8>() {
             let mut v = PolymorphicVec::<Tracked, _>::new(&alloc, CAP).unwrap();
             vec_history::<_, CAP, STEPS, OPSET>(&mut v);
             // try_clone copies element-wise into a second bucket
-            let before = unsafe { NEXT };
+            let before = live();
             let c = v.try_clone().unwrap();
             assert!(c.len() == v.len());
-            assert!(unsafe { NEXT } == before + v.len());
+            assert!(live() == before + v.len(), "c16: try_clone did not clone every element exactly once");
         }
         // both buckets were given back by the drops
         let l = core::alloc::Layout::from_size_align(16, 4).unwrap();
@@ -335,7 +330,6 @@ fn queue_history<Q: QLike, const CAP: usize, const STEPS: usize>(q: &mut Q) {
                     wrapped += 1;
                 } else {
                     assert!(!r, "c16: queue push beyond capacity accepted");
-                    assert!(!is_live(id), "c16: refused element leaked");
                 }
             }
             1 => match q.q_pop() {
@@ -367,7 +361,6 @@ fn queue_history<Q: QLike, const CAP: usize, const STEPS: usize>(q: &mut Q) {
                 q.q_clear();
                 while m.len > 0 {
                     let (id, _) = m.remove(0);
-                    assert!(!is_live(id), "c16: cleared queue element not dropped");
                 }
             }
             _ => match q.q_peek() {
@@ -376,6 +369,7 @@ fn queue_history<Q: QLike, const CAP: usize, const STEPS: usize>(q: &mut Q) {
             },
         }
         assert!(q.q_len() == m.len);
+        assert!(live() == m.len, "c16: number of live elements differs from the queue content (leak or double drop)");
         assert!(q.q_is_empty() == (m.len == 0));
         assert!(q.q_is_full() == (m.len == CAP));
         assert!(q.q_capacity() == CAP);
@@ -455,5 +449,594 @@ proof!(8, fn c16_queue_get() {
         step += 1;
     }
     kani::cover!(len == 3, "full");
+    canaries();
+});
+
+// ------------------------------------------------------------------------------------------
+// slot map
+// ------------------------------------------------------------------------------------------
+
+use iceoryx2_bb_container::flatmap::*;
+use iceoryx2_bb_container::slotmap::*;
+
+trait SlotLike {
+    fn s_insert(&mut self, v: Tracked) -> Option<SlotMapKey>;
+    fn s_insert_at(&mut self, k: SlotMapKey, v: Tracked) -> bool;
+    fn s_remove(&mut self, k: SlotMapKey) -> Option<Tracked>;
+    fn s_get(&self, k: SlotMapKey) -> Option<&Tracked>;
+    fn s_contains(&self, k: SlotMapKey) -> bool;
+    fn s_next_free(&self) -> Option<SlotMapKey>;
+    fn s_len(&self) -> usize;
+    fn s_is_empty(&self) -> bool;
+    fn s_is_full(&self) -> bool;
+    fn s_capacity(&self) -> usize;
+    /// folds the iteration (key order, ids) into a number
+    fn s_iter_sig(&self) -> u64;
+}
+
+macro_rules! slot_like {
+    ($t:ty) => {
+        impl SlotLike for $t {
+            fn s_insert(&mut self, v: Tracked) -> Option<SlotMapKey> { self.insert(v) }
+            fn s_insert_at(&mut self, k: SlotMapKey, v: Tracked) -> bool { self.insert_at(k, v) }
+            fn s_remove(&mut self, k: SlotMapKey) -> Option<Tracked> { self.remove(k) }
+            fn s_get(&self, k: SlotMapKey) -> Option<&Tracked> { self.get(k) }
+            fn s_contains(&self, k: SlotMapKey) -> bool { self.contains(k) }
+            fn s_next_free(&self) -> Option<SlotMapKey> { self.next_free_key() }
+            fn s_len(&self) -> usize { self.len() }
+            fn s_is_empty(&self) -> bool { self.is_empty() }
+            fn s_is_full(&self) -> bool { self.is_full() }
+            fn s_capacity(&self) -> usize { self.capacity() }
+            fn s_iter_sig(&self) -> u64 {
+                let mut acc = 0u64;
+                let mut last: i64 = -1;
+                for (k, v) in self.iter() {
+                    assert!((k.value() as i64) > last, "c16: slot map iteration not in ascending key order");
+                    last = k.value() as i64;
+                    acc |= ((v.id as u64) + 1) << (8 * k.value());
+                }
+                acc
+            }
+        }
+    };
+}
+slot_like!(SlotMap<Tracked>);
+slot_like!(FixedSizeSlotMap<Tracked, 2>);
+slot_like!(FixedSizeSlotMap<Tracked, 3>);
+
+fn slotmap_history<S: SlotLike, const CAP: usize, const STEPS: usize>(s: &mut S) {
+    // model: id/val per key, id 0 = empty
+    let mut mid = [0u8; CAP];
+    let mut mval = [0u8; CAP];
+    let mut was_full = false;
+    let mut overwrote = false;
+    let mut claimed_head = false;
+    let mut step = 0;
+    while step < STEPS {
+        let op: u8 = kani::any();
+        let x: u8 = kani::any();
+        let key: usize = kani::any();
+        kani::assume(key <= CAP);
+        let mut mlen = 0;
+        let mut i = 0;
+        while i < CAP {
+            if mid[i] != 0 {
+                mlen += 1;
+            }
+            i += 1;
+        }
+        match op {
+            0 => {
+                let nf = s.s_next_free();
+                let e = Tracked::new(x);
+                let id = e.id;
+                match s.s_insert(e) {
+                    Some(k) => {
+                        assert!(k.value() < CAP, "c16: slot map key outside the capacity");
+                        assert!(mid[k.value()] == 0, "c16: insert() overwrote a live entry");
+                        assert!(nf == Some(k), "c16: insert() did not use next_free_key()");
+                        mid[k.value()] = id;
+                        mval[k.value()] = x;
+                    }
+                    None => {
+                        assert!(mlen == CAP, "c16: slot map insert refused although not full");
+                        assert!(nf.is_none());
+                    }
+                }
+            }
+            1 => {
+                let nf = s.s_next_free();
+                let e = Tracked::new(x);
+                let id = e.id;
+                let r = s.s_insert_at(SlotMapKey::new(key), e);
+                if key < CAP {
+                    assert!(r, "c16: insert_at refused a valid key");
+                    if mid[key] != 0 {
+                        overwrote = true;
+                    }
+                    if nf == Some(SlotMapKey::new(key)) {
+                        claimed_head = true;
+                    }
+                    mid[key] = id;
+                    mval[key] = x;
+                } else {
+                    assert!(!r, "c16: insert_at accepted an out-of-bounds key");
+                }
+            }
+            2 => match s.s_remove(SlotMapKey::new(key)) {
+                Some(e) => {
+                    assert!(key < CAP && mid[key] != 0, "c16: remove returned a value for an empty key");
+                    assert!(e.id == mid[key] && e.val() == mval[key], "c16: remove returned the wrong element");
+                    mid[key] = 0;
+                }
+                None => assert!(key >= CAP || mid[key] == 0, "c16: remove refused a live key"),
+            },
+            _ => {
+                match s.s_get(SlotMapKey::new(key)) {
+                    Some(e) => {
+                        assert!(key < CAP && mid[key] != 0);
+                        assert!(e.id == mid[key] && e.val() == mval[key], "c16: get returned the wrong element");
+                    }
+                    None => assert!(key >= CAP || mid[key] == 0, "c16: get misses a live key"),
+                }
+                assert!(s.s_contains(SlotMapKey::new(key)) == (key < CAP && mid[key] != 0));
+            }
+        }
+        let mut mlen = 0;
+        let mut sig = 0u64;
+        let mut i = 0;
+        while i < CAP {
+            if mid[i] != 0 {
+                mlen += 1;
+                sig |= ((mid[i] as u64) + 1) << (8 * i);
+            }
+            i += 1;
+        }
+        assert!(s.s_len() == mlen, "c16: slot map length differs from the model");
+        assert!(live() == mlen, "c16: number of live elements differs from the slot map content (leak or double drop)");
+        assert!(s.s_is_empty() == (mlen == 0));
+        assert!(s.s_is_full() == (mlen == CAP));
+        assert!(s.s_capacity() == CAP);
+        assert!(s.s_iter_sig() == sig, "c16: slot map iteration differs from the model");
+        match s.s_next_free() {
+            Some(k) => assert!(k.value() < CAP && mid[k.value()] == 0, "c16: next_free_key is not free"),
+            None => assert!(mlen == CAP, "c16: no free key although the map is not full"),
+        }
+        if mlen == CAP {
+            was_full = true;
+        }
+        step += 1;
+    }
+    kani::cover!(was_full, "slot map became full");
+    kani::cover!(overwrote, "insert_at overwrote a live entry");
+    kani::cover!(claimed_head && was_full, "insert_at claimed the free-list head and the map filled up later");
+}
+
+proof!(9, fn c16_fixed_slotmap_history() {
+    {
+        let mut s = FixedSizeSlotMap::<Tracked, 2>::new();
+        slotmap_history::<_, 2, 4>(&mut s);
+    }
+    assert_all_dropped();
+    canaries();
+});
+proof!(9, fn c16_owning_slotmap_history() {
+    {
+        let mut s = SlotMap::<Tracked>::new(2);
+        slotmap_history::<_, 2, 4>(&mut s);
+    }
+    assert_all_dropped();
+    canaries();
+});
+proof!(9, fn c16_fixed_slotmap_history_deep() {
+    {
+        let mut s = FixedSizeSlotMap::<Tracked, 3>::new();
+        slotmap_history::<_, 3, 5>(&mut s);
+    }
+    assert_all_dropped();
+    canaries();
+});
+
+// ------------------------------------------------------------------------------------------
+// flat map
+// ------------------------------------------------------------------------------------------
+
+fn flatmap_history<const STEPS: usize>(m: &mut FixedSizeFlatMap<u8, Tracked, 2>) {
+    const CAP: usize = 2;
+    // model: up to CAP (key, id, val) entries, id 0 = unused
+    let mut mk = [0u8; CAP];
+    let mut mid = [0u8; CAP];
+    let mut mval = [0u8; CAP];
+    let mut dup = false;
+    let mut full = false;
+    let mut step = 0;
+    while step < STEPS {
+        let op: u8 = kani::any();
+        let key: u8 = kani::any();
+        kani::assume(key < 3);
+        let x: u8 = kani::any();
+        let mut pos = CAP; // position of `key` in the model
+        let mut free = CAP;
+        let mut mlen = 0;
+        let mut i = 0;
+        while i < CAP {
+            if mid[i] != 0 {
+                mlen += 1;
+                if mk[i] == key {
+                    pos = i;
+                }
+            } else if free == CAP {
+                free = i;
+            }
+            i += 1;
+        }
+        match op {
+            0 => {
+                let e = Tracked::new(x);
+                let id = e.id;
+                match m.insert(key, e) {
+                    Ok(()) => {
+                        assert!(pos == CAP, "c16: flat map accepted a duplicate key");
+                        assert!(free < CAP, "c16: flat map accepted an insert beyond its capacity");
+                        mk[free] = key;
+                        mid[free] = id;
+                        mval[free] = x;
+                    }
+                    Err(FlatMapError::KeyAlreadyExists) => {
+                        assert!(pos < CAP, "c16: KeyAlreadyExists for a new key");
+                        dup = true;
+                    }
+                    Err(FlatMapError::IsFull) => {
+                        assert!(pos == CAP && mlen == CAP, "c16: IsFull although there is room");
+                        full = true;
+                    }
+                }
+            }
+            1 => match m.remove(&key) {
+                Some(e) => {
+                    assert!(pos < CAP, "c16: flat map removed a key it does not hold");
+                    assert!(e.id == mid[pos] && e.val() == mval[pos], "c16: flat map remove returned the wrong value");
+                    mid[pos] = 0;
+                }
+                None => assert!(pos == CAP, "c16: flat map remove missed a key"),
+            },
+            2 => match m.get(&key) {
+                // get clones: fresh id, same value
+                Some(e) => assert!(pos < CAP && e.val() == mval[pos] && e.id != mid[pos]),
+                None => assert!(pos == CAP),
+            },
+            _ => {
+                match m.get_ref(&key) {
+                    Some(e) => assert!(pos < CAP && e.id == mid[pos] && e.val() == mval[pos]),
+                    None => assert!(pos == CAP),
+                }
+                assert!(m.contains(&key) == (pos < CAP));
+            }
+        }
+        let mut mlen = 0;
+        let mut keyset = 0u8;
+        let mut i = 0;
+        while i < CAP {
+            if mid[i] != 0 {
+                mlen += 1;
+                keyset |= 1 << mk[i];
+            }
+            i += 1;
+        }
+        assert!(m.len() == mlen, "c16: flat map length differs from the model");
+        assert!(live() == mlen, "c16: number of live elements differs from the flat map content (leak or double drop)");
+        assert!(m.is_empty() == (mlen == 0));
+        assert!(m.is_full() == (mlen == CAP));
+        let mut listed = 0u8;
+        let mut n = 0;
+        m.list_keys(|k| {
+            listed |= 1 << *k;
+            n += 1;
+            iceoryx2_bb_elementary::CallbackProgression::Continue
+        });
+        assert!(listed == keyset && n == mlen, "c16: flat map list_keys differs from the model");
+        step += 1;
+    }
+    kani::cover!(dup, "duplicate key refused");
+    kani::cover!(full, "insert into a full flat map refused");
+}
+
+proof!(9, fn c16_flatmap_history() {
+    {
+        let mut m = FixedSizeFlatMap::<u8, Tracked, 2>::new();
+        flatmap_history::<4>(&mut m);
+    }
+    assert_all_dropped();
+    canaries();
+});
+proof!(9, fn c16_flatmap_history_deep() {
+    {
+        let mut m = FixedSizeFlatMap::<u8, Tracked, 2>::new();
+        flatmap_history::<5>(&mut m);
+    }
+    assert_all_dropped();
+    canaries();
+});
+
+// ------------------------------------------------------------------------------------------
+// strings (byte-level editing over the full byte range)
+// ------------------------------------------------------------------------------------------
+
+use iceoryx2_bb_container::string::{StaticString, String as IoxString, StringModificationError};
+
+#[derive(Clone, Copy)]
+struct SModel<const CAP: usize> {
+    b: [u8; CAP],
+    n: usize,
+}
+
+impl<const CAP: usize> SModel<CAP> {
+    fn insert(&mut self, idx: usize, c: u8) {
+        let mut i = CAP;
+        while i > 1 {
+            i -= 1;
+            if i > idx && i <= self.n {
+                self.b[i] = self.b[i - 1];
+            }
+        }
+        self.b[idx] = c;
+        self.n += 1;
+    }
+    fn remove(&mut self, idx: usize) -> u8 {
+        let r = self.b[idx];
+        let mut i = 0;
+        while i + 1 < CAP {
+            if i >= idx && i + 1 < self.n {
+                self.b[i] = self.b[i + 1];
+            }
+            i += 1;
+        }
+        self.n -= 1;
+        r
+    }
+}
+
+fn string_compare<const CAP: usize>(s: &StaticString<CAP>, m: &SModel<CAP>) {
+    assert!(s.len() == m.n, "c16: string length differs from the model");
+    assert!(s.is_empty() == (m.n == 0));
+    assert!(s.is_full() == (m.n == CAP));
+    let b = s.as_bytes();
+    assert!(b.len() == m.n);
+    let mut i = 0;
+    while i < CAP {
+        if i < m.n {
+            assert!(b[i] == m.b[i], "c16: string content differs from the model");
+        }
+        i += 1;
+    }
+    // always NUL terminated
+    assert!(s.as_bytes_with_nul()[m.n] == 0, "c16: string lost its NUL terminator");
+}
+
+fn valid_char(c: u8) -> bool {
+    c != 0 && c < 128
+}
+
+fn string_history<const CAP: usize, const STEPS: usize, const OPSET: u8>() {
+    let mut s = StaticString::<CAP>::new();
+    let mut m = SModel::<CAP> { b: [0; CAP], n: 0 };
+    let mut refused_full = false;
+    let mut refused_char = false;
+    let mut step = 0;
+    while step < STEPS {
+        let sel: u8 = kani::any();
+        kani::assume(sel < 4);
+        let c: u8 = kani::any();
+        let d: u8 = kani::any();
+        let idx: usize = kani::any();
+        kani::assume(idx <= CAP + 1);
+        let len: usize = kani::any();
+        kani::assume(len <= CAP + 1);
+        let op = sel + 4 * OPSET;
+        match op {
+            // ---- OPSET 0: growing operations
+            0 => {
+                let r = s.push(c);
+                if m.n == CAP {
+                    assert!(r == Err(StringModificationError::InsertWouldExceedCapacity));
+                    refused_full = true;
+                } else if !valid_char(c) {
+                    assert!(r == Err(StringModificationError::InvalidCharacter), "c16: invalid byte accepted");
+                    refused_char = true;
+                } else {
+                    assert!(r.is_ok());
+                    m.insert(m.n, c);
+                }
+            }
+            1 => {
+                kani::assume(idx <= m.n); // documented precondition (panics otherwise)
+                let r = s.insert(idx, c);
+                if m.n == CAP {
+                    assert!(r == Err(StringModificationError::InsertWouldExceedCapacity));
+                    refused_full = true;
+                } else if !valid_char(c) {
+                    assert!(r == Err(StringModificationError::InvalidCharacter));
+                    refused_char = true;
+                } else {
+                    assert!(r.is_ok());
+                    m.insert(idx, c);
+                }
+            }
+            2 => {
+                kani::assume(idx <= m.n);
+                let r = s.insert_bytes(idx, &[c, d]);
+                if m.n + 2 > CAP {
+                    assert!(r == Err(StringModificationError::InsertWouldExceedCapacity));
+                    refused_full = true;
+                } else if !valid_char(c) || !valid_char(d) {
+                    assert!(r == Err(StringModificationError::InvalidCharacter));
+                    refused_char = true;
+                } else {
+                    assert!(r.is_ok());
+                    m.insert(idx, d);
+                    m.insert(idx, c);
+                }
+            }
+            3 => match s.pop() {
+                Some(x) => {
+                    assert!(m.n > 0);
+                    assert!(x == m.remove(m.n - 1), "c16: string pop returned the wrong byte");
+                }
+                None => assert!(m.n == 0),
+            },
+            // ---- OPSET 1: push + shrinking / searching operations
+            4 => {
+                let r = s.push(c);
+                if m.n < CAP && valid_char(c) {
+                    assert!(r.is_ok());
+                    m.insert(m.n, c);
+                } else {
+                    assert!(r.is_err());
+                }
+            }
+            5 => match s.remove(idx) {
+                Some(x) => {
+                    assert!(idx < m.n, "c16: string remove succeeded out of bounds");
+                    assert!(x == m.remove(idx), "c16: string remove returned the wrong byte");
+                }
+                None => assert!(idx >= m.n, "c16: string remove refused a valid index"),
+            },
+            6 => {
+                let r = s.remove_range(idx, len);
+                if idx + len <= m.n {
+                    assert!(r, "c16: remove_range refused a valid range");
+                    let mut k = 0;
+                    while k < CAP + 1 {
+                        if k < len {
+                            m.remove(idx);
+                        }
+                        k += 1;
+                    }
+                } else {
+                    assert!(!r, "c16: remove_range accepted an invalid range");
+                }
+            }
+            _ => {
+                // find / rfind / truncate / strip
+                let mut first: Option<usize> = None;
+                let mut last: Option<usize> = None;
+                let mut i = 0;
+                while i < CAP {
+                    if i < m.n && m.b[i] == c {
+                        if first.is_none() {
+                            first = Some(i);
+                        }
+                        last = Some(i);
+                    }
+                    i += 1;
+                }
+                assert!(s.find(&[c]) == first, "c16: string find differs from the model");
+                assert!(s.rfind(&[c]) == last, "c16: string rfind differs from the model");
+                if d & 1 == 0 {
+                    s.truncate(idx);
+                    if idx < m.n {
+                        m.n = idx;
+                    }
+                } else if d & 2 == 0 {
+                    let r = s.strip_prefix(&[c]);
+                    assert!(r == (m.n > 0 && m.b[0] == c), "c16: strip_prefix differs from the model");
+                    if r {
+                        m.remove(0);
+                    }
+                } else {
+                    let r = s.strip_suffix(&[c]);
+                    assert!(r == (m.n > 0 && m.b[m.n - 1] == c), "c16: strip_suffix differs from the model");
+                    if r {
+                        m.n -= 1;
+                    }
+                }
+            }
+        }
+        string_compare(&s, &m);
+        step += 1;
+    }
+    if OPSET == 0 {
+        kani::cover!(refused_full, "insert into a full string refused");
+        kani::cover!(refused_char, "invalid byte refused");
+    } else {
+        kani::cover!(m.n == CAP, "string is full at the end");
+    }
+}
+
+proof!(9, fn c16_string_history_grow() { string_history::<3, 4, 0>(); canaries(); });
+proof!(9, fn c16_string_history_shrink() { string_history::<3, 4, 1>(); canaries(); });
+proof!(9, fn c16_string_history_grow_deep() { string_history::<3, 6, 0>(); canaries(); });
+proof!(9, fn c16_string_history_shrink_deep() { string_history::<3, 6, 1>(); canaries(); });
+
+/// retain / clear on an arbitrary string of length <= 3
+proof!(9, fn c16_string_retain_clear() {
+    let b: [u8; 3] = kani::any();
+    let n: usize = kani::any();
+    kani::assume(n <= 3);
+    let mut s = match StaticString::<3>::from_bytes(&b[..n]) {
+        Ok(s) => s,
+        Err(_) => return,
+    };
+    let c: u8 = kani::any();
+    let mut m = SModel::<3> { b, n };
+    s.retain(|x| x == c);
+    let mut k = 3;
+    while k > 0 {
+        k -= 1;
+        if k < m.n && m.b[k] == c {
+            m.remove(k);
+        }
+    }
+    string_compare(&s, &m);
+    kani::cover!(m.n == 1 && n == 3, "retain removed two bytes");
+    s.clear();
+    assert!(s.len() == 0 && s.as_bytes_with_nul()[0] == 0);
+    canaries();
+});
+
+/// find / rfind with multi-byte needles against a naive search model
+proof!(9, fn c16_string_find_model() {
+    let hb: [u8; 4] = kani::any();
+    let hn: usize = kani::any();
+    kani::assume(hn <= 4);
+    let nb: [u8; 3] = kani::any();
+    let nn: usize = kani::any();
+    kani::assume(nn >= 1 && nn <= 3);
+    // a two letter alphabet is enough to build every overlap pattern
+    let mut i = 0;
+    while i < 4 {
+        kani::assume(hb[i] == b'a' || hb[i] == b'b');
+        if i < 3 {
+            kani::assume(nb[i] == b'a' || nb[i] == b'b');
+        }
+        i += 1;
+    }
+    let s = StaticString::<4>::from_bytes(&hb[..hn]).unwrap();
+    let mut first: Option<usize> = None;
+    let mut last: Option<usize> = None;
+    let mut pos = 0;
+    while pos < 4 {
+        if pos + nn <= hn {
+            let mut m = true;
+            let mut k = 0;
+            while k < 3 {
+                if k < nn && hb[pos + k] != nb[k] {
+                    m = false;
+                }
+                k += 1;
+            }
+            if m {
+                if first.is_none() {
+                    first = Some(pos);
+                }
+                last = Some(pos);
+            }
+        }
+        pos += 1;
+    }
+    assert!(s.find(&nb[..nn]) == first, "c16: find differs from a naive search");
+    assert!(s.rfind(&nb[..nn]) == last, "c16: rfind differs from a naive search");
+    kani::cover!(nn == 3 && first == Some(1), "three byte needle found at offset 1");
+    kani::cover!(first.is_some() && first != last, "needle occurs twice");
     canaries();
 });
